@@ -21,7 +21,7 @@ from vf.core.state import digest
 ID = "C19"
 RULE = (
     "inputs: constructors {from_topology (ndarray / list coords; fill & start_index dialects; optional tables and centres), from_face_vertices "
-    "(list/tuple/ndarray), from_dataset and Grid(ds) on datasets with attrs (lon in 0..360 too), open_grid(dict)} x all histories of depth <= d over the read-only "
+    "(list/tuple/ndarray), from_dataset and Grid(ds) on datasets with attrs (lon in 0..360 too), open_grid(dict), open_grid on harness-written MPAS / SCRIP / Exodus / ESMF / ICON datasets with attrs} x all histories of depth <= d over the read-only "
     "event alphabet, input digests compared after every step; copy: all histories of depth <= d over {construct_face_centers x2, normalize_cartesian_coordinates, "
     "chunk, 6 property setters, 8 lazy derivations} on either side, all 40 value observations of the other side compared; exports: {to_xarray x3, to_geodataframe x2, "
     "to_polycollection, to_linecollection, UxDataArray.to_geodataframe, UxDataArray.to_polycollection} x caller edits x all observations. non-trivial = an edit/mutation actually "
@@ -119,6 +119,27 @@ def constructors(m):
     out["open_grid(ugrid ds,lon360)"] = ({"ds": _ugrid_ds(m, lon360=True)}, lambda i: ux.open_grid(i["ds"]))
     out["from_dataset(std,spec)"] = ({"ds": _std_ds(m)}, lambda i: ux.Grid.from_dataset(i["ds"], source_grid_spec="UGRID"))
     out["Grid(ds,lon360)"] = ({"ds": _std_ds(m, lon360=True)}, lambda i: ux.Grid(i["ds"], source_grid_spec="UGRID"))
+    # sources of the other readers, written by the harness (vf.alpha.dialects), with attribute dictionaries
+    from vf.alpha import dialects as D
+
+    def _with_attrs(r):
+        if r is None:
+            return None
+        ds = r[0]
+        ds.attrs = dict(ds.attrs, history=["created", "by harness"], nested_like="a=1;b=2")
+        return ds
+
+    for nm, mk in (
+        ("open_grid(mpas)", lambda: _with_attrs(D.mpas(m, optional="all"))),
+        ("open_grid(mpas,junk padding)", lambda: _with_attrs(D.mpas(m, optional="all", padding="junk"))),
+        ("open_grid(scrip)", lambda: _with_attrs(D.scrip(m))),
+        ("open_grid(exodus)", lambda: _with_attrs(D.exodus(m))),
+        ("open_grid(esmf,junk padding)", lambda: _with_attrs(D.esmf(m, padding="junk", dtype="int64"))),
+        ("open_grid(icon)", lambda: _with_attrs(D.icon(m))),
+    ):
+        dsrc = mk()
+        if dsrc is not None:
+            out[nm] = ({"ds": dsrc}, lambda i: ux.open_grid(i["ds"]))
     return out
 
 
@@ -412,7 +433,7 @@ def cases(tier):
     quick = tier == "quick"
     for mesh in (["mixedpatch", "cube"] if quick else ["mixedpatch", "cube", "amstrip", "tetra"]):
         d = 1 if quick else 2
-        for c in ["from_topology(ndarray)", "from_topology(fill=-1,start=1)", "from_topology(int32,fill=999)", "from_topology(lists)", "from_topology(lon360)", "from_topology(+edges,+centres,+xyz)", "open_grid(dict,start=1)", "from_face_vertices(list)", "from_face_vertices(tuple)", "from_face_vertices(ndarray)", "from_dataset(ugrid,start=1,int32)", "from_dataset(ugrid,start=1,int64,fill=-1)", "open_grid(ugrid ds,lon360)", "from_dataset(std,spec)", "Grid(ds,lon360)"]:
+        for c in ["from_topology(ndarray)", "from_topology(fill=-1,start=1)", "from_topology(int32,fill=999)", "from_topology(lists)", "from_topology(lon360)", "from_topology(+edges,+centres,+xyz)", "open_grid(dict,start=1)", "from_face_vertices(list)", "from_face_vertices(tuple)", "from_face_vertices(ndarray)", "from_dataset(ugrid,start=1,int32)", "from_dataset(ugrid,start=1,int64,fill=-1)", "open_grid(ugrid ds,lon360)", "from_dataset(std,spec)", "Grid(ds,lon360)", "open_grid(mpas)", "open_grid(mpas,junk padding)", "open_grid(scrip)", "open_grid(exodus)", "open_grid(esmf,junk padding)", "open_grid(icon)"]:
             n = len(INPUT_EVENTS) ** d
             if d == 1:
                 out.append({"kind": "inputs", "mesh": mesh, "ctor": c, "depth": d})
